@@ -1130,9 +1130,10 @@ run_plan(long idx, void *ctx)
         mc_outcome(mc_hash_i(mc_hash_i(MC_H0, p->w), 999));
         return;
     }
-    /* with two faults the later one decides what the outcome is named after */
+    /* with two faults the outcome is named after both calls they fired in */
     if (p->k2 >= 0 && fault_api2)
-        snprintf(sig, sizeof sig, "silent:%s:second-of-two-faults%s@%s", fault_api2, outdig != ref[p->w].outdig ? ":wrong-output" : ":wrong-file", WL[p->w].name);
+        snprintf(sig, sizeof sig, "silent:%s+%s:two-faults%s@%s", fault_api ? fault_api : "?", fault_api2, outdig != ref[p->w].outdig ? ":wrong-output" : ":wrong-file",
+                 WL[p->w].name);
     else
         snprintf(sig, sizeof sig, "silent:%s:%s%s@%s", fault_api ? fault_api : "?", vfs_kind_name[p->kind], outdig != ref[p->w].outdig ? ":wrong-output" : ":wrong-file",
                  WL[p->w].name);
